@@ -62,10 +62,10 @@ def exotic_cbor(rng):
     if t == 4:
         return bytes([0xe0 + rng.randrange(32)])
     if t == 5:   # deep nesting (kept well below the interpreter's recursion limit)
-        d = rng.choice([10, 100, 400])
+        d = rng.choice([10, 100, 400, 400, 3000, 6000])     # the deepest exceed the interpreter's recursion limit
         return b"\x81" * d + b"\x00"
     if t == 6:
-        d = rng.choice([10, 100, 400])
+        d = rng.choice([10, 100, 400, 400, 3000, 6000])     # the deepest exceed the interpreter's recursion limit
         return b"\xa1\x00" * d + b"\x00"
     if t == 7:   # huge declared lengths
         return bytes([rng.choice([0x5b, 0x7b, 0x9b, 0xbb])]) + rng.choice([b"\xff" * 8, b"\x00\x00\x00\x01\x00\x00\x00\x00", b"\x7f" + b"\xff" * 7]) + rng.bytes_(4)
@@ -93,6 +93,9 @@ def work(tasks, idx):
             if rng.random() < 0.05:     # an id containing the byte pattern the Ed25519 work-around looks for (at the key position only)
                 cid = rng.bytes_(rng.randrange(0, 20)) + bytes.fromhex("a301634f4b500327206745643235353139") + rng.bytes_(rng.randrange(0, 20))
             cose = c.cose() if flags & 0x40 else None
+            if cose is not None and rng.random() < 0.04:
+                # large keys (RSA-8192 / RSA-16384 sized moduli): the key is however long its CBOR says
+                cose = cbor2.dumps({1: 3, 3: -257, -1: rng.bytes_(rng.choice([960, 1024, 1025, 2048])), -2: b"\x01\x00\x01"})
             extv = None
             if flags & 0x80:
                 # registered extension identifiers with arbitrary (also out-of-range) values: the parser's job is to return the
@@ -139,9 +142,18 @@ def work(tasks, idx):
                                            "match": {"op": "parse_cbor", "rule": "library-exception"}})
             code = cases.code_parse_auth_data(b)
             res.evaluations += 1
-            tie.check({"op": "parse_auth_data", "b": b.hex()}, code, label=[label, flags])
+            deep = b.count(b"\x81" * 900) > 0 or b.count(b"\xa1\x00" * 450) > 0
+            if deep:
+                # nesting beyond the interpreter's recursion limit: the model has no such limit, so only the property is judged
+                # (a library exception, nothing else)
+                res.count("deep-nesting:" + corr.kind(code))
+            else:
+                tie.check({"op": "parse_auth_data", "b": b.hex()}, code, label=[label, flags])
             res.nontrivial.add(b)
             res.count(label + ":" + corr.kind(code))
+            if code["k"] == "oom":
+                res.violations.append({"why": "parser let a RecursionError escape (deeply nested CBOR must be refused with a library exception)",
+                                       "b": b.hex()[:200] + "...", "match": {"op": "parse_auth_data", "rule": "library-exception", "exception": "RecursionError"}})
             if code["k"] == "reject" and ("nonlib" in code or code.get("lib") not in LIB):
                 res.violations.append({"why": f"parser raised {code.get('nonlib') or code.get('lib')}: {code.get('msg')}", "b": b.hex(),
                                        "match": {"op": "parse_auth_data", "rule": "library-exception"}})
